@@ -87,6 +87,17 @@ def plan(tier):
             g = fgcd(s1, s2)
             insts.append({"id": iid, "kind": "float", "s1": s1, "s2": s2, "r1": r1, "r2": r2, "k1": int(s1 / g), "k2": int(s2 / g), "g": g})
             iid += 1
+    # long double as the common rep, with integer factors to the common unit that need more than 53 significant bits
+    # (exact in long double's 64-bit significand): the factor must be applied in the rep's own precision
+    big = [Fraction(10 ** 24), Fraction(3 ** 40), Fraction(10 ** 27), Fraction(2 ** 70 + 2 ** 10), Fraction(7 ** 22), Fraction(1, 10 ** 24), Fraction(10 ** 24, 3)]
+    for r1, r2 in [("long double", "long double"), ("long double", "double"), ("float", "long double")]:
+        for s1 in (big if tier != "quick" else rnd.sample(big, 3)):
+            s2 = Fraction(1)
+            if rnd.random() < 0.5:
+                s1, s2 = s2, s1
+            g = fgcd(s1, s2)
+            insts.append({"id": iid, "kind": "float", "s1": s1, "s2": s2, "r1": r1, "r2": r2, "k1": int(s1 / g), "k2": int(s2 / g), "g": g})
+            iid += 1
     return insts
 
 
